@@ -115,8 +115,8 @@ def run(tier: str) -> int:
         from .. import e2
 
         e2cov = e2.run_c08(rep, tier)
-    except ImportError:
-        e2cov = {"status": "E2 not built"}
+    except (ImportError, AttributeError) as ex:
+        e2cov = {"status": f"E2 not available: {ex}"}
     rep.coverage = dict(
         evaluations=len(results),
         distinct_nontrivial=nontrivial,
